@@ -41,8 +41,10 @@ DoPush ==
           /\ hist' = Append(hist, [op |-> "push", t |-> t])
   /\ UNCHANGED arr
 
+(* request times may also go back by up to two ticks (another reader of the same adapter chain asks for an *)
+(* earlier time; the source refuses what it has already discarded)                                        *)
 DoPull ==
-  \E T \in LastReq..(Newest(s, 1) + 2) :
+  \E T \in Max2(0, LastReq - 2)..(Newest(s, 1) + 2) :
      LET r == PullFrom(cfg, s, L, 1, T)
          ch == Chain(cfg, L)
      IN /\ s' = IF r.ok THEN r.s ELSE s
@@ -91,7 +93,11 @@ FixedDelaysAddUp ==
 (* never before the start time                                             *)
 ShiftBounds ==
   \A k \in 1..Len(arr[1]) :
-     LET x == arr[Len(Chain(cfg, L)) + 1][k] IN x >= Min2(T0, arr[1][k]) /\ x <= Max2(arr[1][k], T0)
+     \* (a DelayToPull answers for an earlier REQUEST, which may be later in time when requests go back:
+     \*  the bound is the latest time requested so far)
+     LET x == arr[Len(Chain(cfg, L)) + 1][k]
+         hi == SetMax({arr[1][q] : q \in 1..k})
+     IN x >= Min2(T0, arr[1][k]) /\ x <= Max2(hi, T0)
 
 Emit == (Len(hist) = MaxLen) => PrintT(<<"SCRIPT", ToJson([cfg |-> cfg, ops |-> hist])>>)
 =============================================================================
